@@ -667,6 +667,24 @@ func (g *gen) sRegressions() {
 	//     CellFromPoint(p).ContainsPoint(p) is false for some unit p (".marginTooSmall").
 	g.containAllLevels("regression", pbits(0x3fbdcfd5bce2da59, 0xbfed378ae57d57b2, 0x3fd904c1fabf622e))
 	g.containAllLevels("regression", pbits(0x3fc7eb16c58621d8, 0xbfec3f608ffa12fd, 0x3fdb975da6a83768))
+	// directed: the six face cells, side midpoints and tilted poles of the sides' great circles
+	for f := 0; f < 6; f++ {
+		cell := s2.CellFromCellID(s2.CellIDFromFace(f))
+		q := quadOf(cell)
+		cj := cellJSON(cell)
+		for _, tp := range directedPoleTargets(cell) {
+			p := tp.p
+			pd := dirOf(p)
+			rep := func() map[string]interface{} {
+				return map[string]interface{}{"cell": cj, "p": ptJSON(p), "category": tp.cat}
+			}
+			c.Class("S.point:" + tp.cat)
+			c.Eval("S.point "+cj["token"].(string)+" "+ptKey(p), true)
+			g.judge("Distance", cell.Distance(p), q.point2(pd.b), rep)
+			g.judge("BoundaryDistance", cell.BoundaryDistance(p), q.boundary2(pd.b), rep)
+			g.judge("MaxDistance", cell.MaxDistance(p), q.maxPoint2(pd.b), rep)
+		}
+	}
 	type re struct {
 		tok  string
 		a, b s2.Point
